@@ -2,6 +2,7 @@ package c15
 
 import (
 	"fmt"
+	"reflect"
 	"strings"
 
 	"ariga.io/atlas/schemahcl"
@@ -25,7 +26,7 @@ type Arg struct {
 // types: a type enters a graph the way it does in production, through the HCL type registry
 // (`Registry.Type`, what EvalHCL does for `type = varchar(10)`) or through ParseType (what inspection does).
 type TypeCase struct {
-	Src    string   `json:"src"`              // hcl | parse | pgenum | pgenumarr
+	Src    string   `json:"src"`              // hcl | parse | lit | pgenum | pgenumarr
 	Spec   string   `json:"spec,omitempty"`   // hcl: TypeSpec.Name
 	Args   []Arg    `json:"args,omitempty"`   // hcl: attributes, in spec order
 	Text   string   `json:"text,omitempty"`   // parse: database spelling
@@ -49,6 +50,10 @@ func (t TypeCase) String() string {
 		return "hcl:" + t.Spec + "(" + strings.Join(a, ",") + ")"
 	case "parse":
 		return "parse:" + t.Text
+	case "lit":
+		h := t
+		h.Src = "hcl"
+		return "lit:" + strings.TrimPrefix(h.String(), "hcl:")
 	}
 	return fmt.Sprintf("%s:%s%q", t.Src, t.Text, t.Values)
 }
@@ -224,6 +229,8 @@ func buildType(d *dialect, tc TypeCase, s *schema.Schema) (schema.Type, error) {
 		return d.reg.Type(&schemahcl.Type{T: sp.T, Attrs: ta}, extra)
 	case "parse":
 		return d.parse(tc.Text)
+	case "lit":
+		return litType(d, tc)
 	case "pgenum", "pgenumarr":
 		var e *schema.EnumType
 		if s != nil {
@@ -245,6 +252,96 @@ func buildType(d *dialect, tc TypeCase, s *schema.Schema) (schema.Type, error) {
 		return e, nil
 	}
 	return nil, fmt.Errorf("c15: unknown type source %q", tc.Src)
+}
+
+// litType builds a type value WITHOUT letting ParseType / the registry decide its parameters: the Go type
+// and the non-parameter fields (T, interval field F) are taken from what Atlas builds for the same HCL
+// expression, then every field that corresponds to a spec attribute (Camelize(attr.Name), the mapping
+// TypeRegistry.Convert itself uses) is zeroed and set from the arguments only. An absent optional
+// parameter is therefore really absent (0 / nil / false), whatever default ParseType would fill in. This
+// is the third, independent way a type enters a graph: the Go API (schema DSL users, other drivers).
+var errLitParam = fmt.Errorf("c15: parameter not recorded by the dialect for this type")
+
+func litType(d *dialect, tc TypeCase) (schema.Type, error) {
+	sp := specByName(d, tc.Spec)
+	if sp == nil {
+		return nil, fmt.Errorf("c15: no spec %q", tc.Spec)
+	}
+	ta, extra := hclAttrs(tc.Args)
+	proto, err := d.reg.Type(&schemahcl.Type{T: sp.T, Attrs: ta}, extra)
+	if err != nil {
+		return nil, err
+	}
+	pv := reflect.ValueOf(proto)
+	if pv.Kind() != reflect.Ptr || pv.Elem().Kind() != reflect.Struct {
+		return nil, fmt.Errorf("c15: cannot copy %T", proto)
+	}
+	nv := reflect.New(pv.Elem().Type())
+	nv.Elem().Set(pv.Elem())
+	field := func(attr string) reflect.Value {
+		n := ""
+		for _, w := range strings.Split(attr, "_") {
+			if w != "" {
+				n += strings.ToUpper(w[:1]) + w[1:]
+			}
+		}
+		return nv.Elem().FieldByName(n)
+	}
+	// Domain: a parameter the dialect does not record for this type at all (MySQL blob(1), SQLite real(1):
+	// ParseType drops it, FormatType never prints it) is not a parameter of the type. A literal carries an
+	// argument only if Atlas's own value for the same expression holds exactly that value in the field.
+	for _, a := range tc.Args {
+		f := field(a.K)
+		if !f.IsValid() {
+			continue
+		}
+		fv := f
+		if fv.Kind() == reflect.Ptr {
+			if fv.IsNil() {
+				return nil, errLitParam
+			}
+			fv = fv.Elem()
+		}
+		switch {
+		case a.I != nil && (!fv.CanInt() || fv.Int() != int64(*a.I)):
+			return nil, errLitParam
+		case a.B != nil && (fv.Kind() != reflect.Bool || fv.Bool() != *a.B):
+			return nil, errLitParam
+		}
+	}
+	for _, a := range sp.Attributes {
+		if f := field(a.Name); f.IsValid() && f.CanSet() {
+			f.Set(reflect.Zero(f.Type()))
+		}
+	}
+	for _, a := range tc.Args {
+		f := field(a.K)
+		if !f.IsValid() || !f.CanSet() {
+			continue
+		}
+		set := func(v reflect.Value) {
+			if f.Kind() == reflect.Ptr {
+				p := reflect.New(f.Type().Elem())
+				p.Elem().Set(v.Convert(f.Type().Elem()))
+				f.Set(p)
+			} else {
+				f.Set(v.Convert(f.Type()))
+			}
+		}
+		switch {
+		case a.I != nil:
+			set(reflect.ValueOf(*a.I))
+		case a.B != nil:
+			set(reflect.ValueOf(*a.B))
+		default:
+			if f.Kind() == reflect.Slice {
+				f.Set(reflect.ValueOf(append([]string(nil), a.S...)))
+			} else if len(a.S) == 1 {
+				set(reflect.ValueOf(a.S[0]))
+			}
+		}
+	}
+	return nv.Interface().(schema.Type), nil
 }
 
 // kinds collects the attribute kinds a schema spec exercises (evidence).
